@@ -286,6 +286,52 @@ pub fn solve_with_config_and_init(problem: Arc<Problem>, config: &Value, init_so
     }
 }
 
+/// Library path of a warm start: a first solve with `first_config` whose core `Solution` (with its detailed unassignment reasons,
+/// registry and all) is handed to `InsertionContext::new_from_solution` and, as initial solution, to a second solve with `config`.
+/// Returns the serialized solutions of both solves; the caller judges the first one before it trusts the second.
+pub fn solve_twice_through_core_solution(problem: Arc<Problem>, first_config: &Value, config: &Value) -> (SolveOutcome, Option<SolveOutcome>) {
+    use vrp_cli::extensions::solve::config::create_builder_from_config;
+    use vrp_core::construction::heuristics::InsertionContext;
+    use vrp_core::models::Solution;
+    use vrp_core::rosomaxa::prelude::Environment;
+    use vrp_core::solver::Solver;
+    use vrp_pragmatic::format::solution::{PragmaticOutputType, write_pragmatic};
+    fn run(problem: Arc<Problem>, config: &Value, init: Vec<InsertionContext>) -> Result<Result<(Solution, String), String>, PanicInfo> {
+        let text = serde_json::to_string(config).unwrap();
+        let cfg = match read_config(BufReader::new(text.as_bytes())) {
+            Ok(c) => c,
+            Err(e) => return Ok(Err(format!("config rejected: {e}"))),
+        };
+        guard(move || {
+            let solution = create_builder_from_config(problem.clone(), init, &cfg)
+                .and_then(|builder| builder.build())
+                .map(|config| Solver::new(problem.clone(), config))
+                .and_then(|solver| solver.solve())
+                .map_err(|e| e.to_string())?;
+            let mut writer = std::io::BufWriter::new(Vec::new());
+            write_pragmatic(problem.as_ref(), &solution, PragmaticOutputType::default(), &mut writer).map_err(|e| e.to_string())?;
+            let bytes = writer.into_inner().map_err(|e| e.to_string())?;
+            Ok((solution, String::from_utf8(bytes).map_err(|e| e.to_string())?))
+        })
+    }
+    let (first, first_text) = match run(problem.clone(), first_config, vec![]) {
+        Ok(Ok(v)) => v,
+        Ok(Err(e)) => return (SolveOutcome::Err(e), None),
+        Err(p) => return (SolveOutcome::Panic(p), None),
+    };
+    let p2 = problem.clone();
+    let ctx = match guard(move || InsertionContext::new_from_solution(p2, (first, None), Arc::new(Environment::default()))) {
+        Ok(ctx) => ctx,
+        Err(p) => return (SolveOutcome::Ok(first_text), Some(SolveOutcome::Panic(p))),
+    };
+    let second = match run(problem, config, vec![ctx]) {
+        Ok(Ok((_, text))) => SolveOutcome::Ok(text),
+        Ok(Err(e)) => SolveOutcome::Err(e),
+        Err(p) => SolveOutcome::Panic(p),
+    };
+    (SolveOutcome::Ok(first_text), Some(second))
+}
+
 /// A small default config with `gens` generations.
 pub fn simple_config(gens: usize, pools: usize, threads: usize) -> Value {
     json!({
